@@ -93,7 +93,9 @@ func (e *bincEncDriver[T]) EncodeFloat64(f float64) {
 func (e *bincEncDriver[T]) encIntegerPrune32(bd byte, pos bool, v uint64) {
 	b := bigen.PutUint32(uint32(v))
 	if bincDoPrune {
-		i := byte(pruneSignExt(b[:], pos))
+		// v is a magnitude (decUint zero-extends it), for negative numbers too:
+		// only leading zero bytes may be dropped, never leading 0xff bytes.
+		i := byte(pruneSignExt(b[:], true))
 		e.w.writen1(bd | 3 - i)
 		e.w.writeb(b[i:])
 	} else {
@@ -105,7 +107,8 @@ func (e *bincEncDriver[T]) encIntegerPrune32(bd byte, pos bool, v uint64) {
 func (e *bincEncDriver[T]) encIntegerPrune64(bd byte, pos bool, v uint64) {
 	b := bigen.PutUint64(v)
 	if bincDoPrune {
-		i := byte(pruneSignExt(b[:], pos))
+		// see encIntegerPrune32: v is a magnitude
+		i := byte(pruneSignExt(b[:], true))
 		e.w.writen1(bd | 7 - i)
 		e.w.writeb(b[i:])
 	} else {
